@@ -26,7 +26,7 @@ class Kit(object):
     """Probe functions handed to generated programs. Everything they log is made of ints,
     strs, bools and canonical forms - never identities or default reprs."""
 
-    NAMES = ("M", "C", "W", "R", "IT", "P", "L", "LO", "OBJ", "BOX", "SEQ", "MK", "KEYS")
+    NAMES = ("M", "C", "W", "R", "IT", "GS", "P", "L", "LO", "OBJ", "BOX", "SEQ", "MK", "KEYS")
 
     def __init__(self, sched=0, fuel=200000):
         self.sched = sched
@@ -123,6 +123,15 @@ class Kit(object):
         self.log.append(("IT", i, n))
         return _LoggedIterable(self, i, n)
 
+    def GS(self, i):
+        """like IT, but the object is a sequence in the OLD protocol: __getitem__ only, no __iter__"""
+        self.tick()
+        act = self._itact.get(i, 0)
+        self._itact[i] = act + 1
+        n = self._itlen(i, act)
+        self.log.append(("GS", i, n))
+        return _GetitemSequence(self, i, n)
+
     def P(self, i, v=None):
         """evaluation probe: logs its id, returns v"""
         self.tick()
@@ -217,6 +226,18 @@ class _LoggedIterator(object):
             raise StopIteration
         self.k += 1
         return self.k
+
+
+class _GetitemSequence(object):
+    def __init__(self, kit, i, n):
+        self.kit, self.i, self.n = kit, i, n
+
+    def __getitem__(self, k):
+        self.kit.tick()
+        self.kit.log.append(("getitem-seq", self.i, k))
+        if k >= self.n:
+            raise IndexError(k)
+        return k + 1
 
 
 class OneShot(object):
